@@ -23,7 +23,7 @@ func init() { core.Register(c18{}) }
 func (c18) ID() string    { return "C18" }
 func (c18) Level() string { return "exploration" }
 func (c18) Rule() string {
-	return "cases = merge scenarios (histories with keys of length 1..2000 incl. keys made of 0x80..0xff bytes and keys that look like a varint prefix followed by data, deletes, batches, 1..6 output files, empty output, second merge over an adopted one with a stale hint file present, both I/O types); after EACH successful Merge and before adoption vfmt decodes the hint file and the rewritten data files of <dir>-merge: every entry's (fid, block, offset) must hold a plain record with exactly that key occupying exactly `size` bytes, and the multiset of hinted keys must equal the multiset of keys stored in the rewritten files; then two copies of the directories are opened: A = as left by Merge (adoption through the hint), B = rewritten files moved into place by the harness with no hint file and no merge directory (scan path); dumps, KeyNum and DiskSize-ReclaimableSize of A and B must agree with each other and with the model; the real directory then adopts and is compared too. In every third case the adopting Opens (A, B and the real one) run under a configuration that differs from the one Merge ran under (smaller or larger DataFileSize, other index type, shard count, I/O type): none of these is stored in the directory. Non-trivial: merge whose hint has >=3 entries over >=2 output files incl. >=1 key with a high-bit byte; distinct = hash of (config, op list)"
+	return "cases = merge scenarios (histories with keys of length 1..2000 incl. keys made of 0x80..0xff bytes and keys that look like a varint prefix followed by data, deletes, batches, 1..6 output files, empty output, second merge over an adopted one with a stale hint file present, both I/O types); in every third case a writer overwrites or deletes the key Merge is rewriting at the moment the rewritten record is handed to the output file; after EACH successful Merge and before adoption vfmt decodes the hint file and the rewritten data files of <dir>-merge: every entry's (fid, block, offset) must hold a plain record with exactly that key occupying exactly `size` bytes, and the multiset of hinted keys must equal the multiset of keys stored in the rewritten files; then two copies of the directories are opened: A = as left by Merge (adoption through the hint), B = rewritten files moved into place by the harness with no hint file and no merge directory (scan path); dumps, KeyNum and DiskSize-ReclaimableSize of A and B must agree with each other and with the model; the real directory then adopts and is compared too. In every third case the adopting Opens (A, B and the real one) run under a configuration that differs from the one Merge ran under (smaller or larger DataFileSize, other index type, shard count, I/O type): none of these is stored in the directory. Non-trivial: merge whose hint has >=3 entries over >=2 output files incl. >=1 key with a high-bit byte; distinct = hash of (config, op list)"
 }
 func (c18) Assumptions() []string {
 	return []string{"vfmt decodes hint and data files independently of the engine"}
@@ -144,7 +144,34 @@ func (c18) Run(c core.Case, w *core.Worker) core.Result {
 			break
 		}
 		var merr error
+		// in every third case a writer overwrites or deletes the very key Merge is rewriting,
+		// at the moment the rewritten record is handed to the output file (after Merge found
+		// it live, before it writes the hint entry)
+		touched := map[string]bool{}
+		if c.Index%3 == 2 {
+			io.OnEvent = func(ev mon.Event, buf []byte) {
+				if ev.Kind != "io.write" || !strings.HasPrefix(ev.Path, mergeDir+"/") || !strings.HasSuffix(ev.Path, ".data") || !r.Chance(1, 3) {
+					return
+				}
+				recs, _, err := vfmt.ScanAt(buf, ev.Off)
+				if err != nil || len(recs) == 0 {
+					return
+				}
+				k := append([]byte{}, recs[0].Key...)
+				if r.Chance(3, 4) {
+					v := core.FillValue(r.U64()|1, r.Range(0, 300))
+					if s.DB.Put(k, v) == nil {
+						s.M.Put(k, v)
+					}
+				} else if s.DB.Delete(k) == nil {
+					s.M.Delete(k)
+				}
+				touched[string(k)] = true
+				res.Add("keys_overwritten_while_being_rewritten", 1)
+			}
+		}
 		core.Safe(func() { merr = s.DB.Merge() })
+		io.OnEvent = nil
 		s.Step++
 		s.Log = append(s.Log, fmt.Sprintf("merge->%v", merr))
 		if merr != nil {
@@ -223,6 +250,9 @@ func (c18) Run(c core.Case, w *core.Worker) core.Result {
 			if rc.Size != h.Size {
 				fail("hint-entry", fmt.Sprintf("hint entry for key %q says size %d, the record occupies %d bytes", h.Key, h.Size, rc.Size))
 				break
+			}
+			if touched[string(h.Key)] {
+				continue // overwritten while the merge ran: the rewritten copy is legitimately stale
 			}
 			if mv, ok := s.M.Get(h.Key); !ok || !bytes.Equal(mv, rc.Value) {
 				fail("hint-entry", fmt.Sprintf("hinted record for key %q is not the live value", h.Key))
